@@ -144,3 +144,307 @@ def wrapper(payload):
             return {"status": "fail", "cases": cases, "witness_key": "wrapper-" + mode,
                     "detail": f"auto-reset wrapper, episodes of length 3 ending by {mode}: episode index seen after each step {eps}, expected {want}"}
     return {"status": "pass", "cases": cases}
+
+
+class EchoEnv:
+    """Reports, in obs and info, the action (value, shape, dtype kind) it was handed."""
+    metadata = {"name": "echo_v0", "render_modes": []}
+    render_mode = None
+    SPACES = None
+
+    def __init__(self):
+        self.possible_agents = list(self.SPACES)
+        self.agents = self.possible_agents[:]
+
+    def observation_space(self, agent):
+        from gymnasium import spaces
+        return spaces.Box(-100, 100, (4,), np.float32)
+
+    def action_space(self, agent):
+        return self.SPACES[agent]
+
+    def reset(self, seed=None, options=None):
+        self.agents = self.possible_agents[:]
+        return ({a: np.zeros(4, np.float32) for a in self.agents}, {a: {} for a in self.agents})
+
+    def step(self, actions):
+        obs, info = {}, {}
+        for a in self.agents:
+            act = np.asarray(actions[a])
+            flat = act.astype(np.float64).reshape(-1)
+            o = np.zeros(4, np.float32)
+            o[:min(4, flat.size)] = flat[:4]
+            obs[a] = o
+            info[a] = {"shape_seen": str(act.shape), "float_kind": bool(act.dtype.kind == "f")}
+        z = {a: False for a in self.agents}
+        return obs, {a: 0.0 for a in self.agents}, z, dict(z), info
+
+    def close(self):
+        pass
+
+
+def actions(payload):
+    """Each sub-environment must receive exactly the action it would receive when stepped alone: same values, same shape, floats stay floats."""
+    from gymnasium import spaces
+    from pettingzoo import ParallelEnv
+    from agilerl.vector.pz_async_vec_env import AsyncPettingZooVecEnv
+    cases = 0
+    layouts = [
+        {"a0": spaces.Box(-1, 1, (1,), np.float32), "a1": spaces.Box(-1, 1, (1, 2), np.float32)},
+        {"a0": spaces.Box(-1, 1, (3,), np.float32), "a1": spaces.Discrete(4)},
+        {"a0": spaces.MultiDiscrete([5]), "a1": spaces.MultiDiscrete([3, 2])},
+        {"a0": spaces.Box(-1, 1, (), np.float32), "a1": spaces.Discrete(3)},
+    ]
+    n = 3
+    for li, sp in enumerate(layouts):
+        cls = type(f"Echo{li}", (EchoEnv, ParallelEnv), {"SPACES": sp})
+        globals()[cls.__name__] = cls                      # picklable by the worker processes (fork)
+        rng = np.random.RandomState(li)
+        acts = {}
+        for a, s in sp.items():
+            if isinstance(s, spaces.Discrete):
+                acts[a] = rng.randint(0, s.n, size=n)
+            elif isinstance(s, spaces.MultiDiscrete):
+                acts[a] = np.stack([s.sample() for _ in range(n)])
+            else:
+                acts[a] = (rng.rand(n, *s.shape) * 1.5 - 0.75).astype(np.float32)
+        ref = []
+        for i in range(n):
+            e = cls()
+            e.reset()
+            ref.append(e.step({a: acts[a][i] for a in sp}))
+        vec = AsyncPettingZooVecEnv([cls for _ in range(n)])
+        try:
+            vec.reset()
+            cases += 1
+            try:
+                obs, rew, term, trunc, info = vec.step(acts)
+            except Exception as exc:
+                return {"status": "fail", "cases": cases, "witness_key": "action-mangled",
+                        "detail": f"layout {li}: vec.step raised {type(exc).__name__}: {exc}", "input": {"layout": {a: str(s) for a, s in sp.items()}}}
+            for i in range(n):
+                for a in sp:
+                    if not np.allclose(np.asarray(obs[a][i], dtype=np.float64), np.asarray(ref[i][0][a], dtype=np.float64)):
+                        return {"status": "fail", "cases": cases, "witness_key": "action-mangled",
+                                "detail": f"layout {li} ({sp[a]}), env {i}, {a}: the sub-environment saw action values {np.asarray(obs[a][i]).tolist()}, "
+                                          f"stepped alone it sees {np.asarray(ref[i][0][a]).tolist()}", "input": {"space": str(sp[a])}}
+                    seen, alone = info[a]["shape_seen"][i], ref[i][4][a]["shape_seen"]
+                    if seen != alone:
+                        return {"status": "fail", "cases": cases, "witness_key": "action-mangled",
+                                "detail": f"layout {li} ({sp[a]}), env {i}, {a}: the sub-environment received an action of shape {seen}, stepped alone {alone}",
+                                "input": {"space": str(sp[a])}}
+        finally:
+            vec.close(terminate=True)
+    return {"status": "pass", "cases": cases}
+
+
+class _KeyedBase:
+    metadata = {"name": "keyed_done_v0", "render_modes": []}
+    render_mode = None
+    max_cycles = 3
+
+    def __init__(self):
+        self.possible_agents = ["a0", "a1"]
+        self.agents = self.possible_agents[:]
+        self.t, self.episode = 0, -1
+
+    def observation_space(self, agent):
+        from gymnasium import spaces
+        return spaces.Box(0, 100, (2,), np.float32)
+
+    def action_space(self, agent):
+        from gymnasium import spaces
+        return spaces.Discrete(2)
+
+    def _obs(self, agents):
+        return {a: np.array([self.episode, self.t], np.float32) for a in agents}
+
+    def reset(self, seed=None, options=None):
+        self.episode += 1
+        self.t = 0
+        self.agents = self.possible_agents[:]
+        return self._obs(self.agents), {a: {} for a in self.agents}
+
+    def close(self):
+        pass
+
+
+def keyorder(payload):
+    """Episode ends when every agent is terminated OR truncated - whatever the key order / key sets of the two dicts the
+    environment returns.  Reference: the same environment under the single-environment auto-reset wrapper."""
+    from pettingzoo import ParallelEnv
+    from agilerl.vector.pz_async_vec_env import AsyncPettingZooVecEnv
+    from agilerl.wrappers.pettingzoo_wrappers import PettingZooAutoResetParallelWrapper
+
+    class OrderSwap(_KeyedBase, ParallelEnv):
+        def step(self, actions):
+            self.t += 1
+            live = self.agents[:]
+            term = {a: (a == "a0" and self.t == 2) for a in live}
+            trunc = {a: (a == "a1" and self.t == 2) for a in reversed(live)}
+            obs, rew = self._obs(live), {a: 1.0 for a in live}
+            self.agents = [a for a in live if not (term[a] or trunc[a])]
+            return obs, rew, term, trunc, {a: {} for a in live}
+
+    class LiveTermAllTrunc(_KeyedBase, ParallelEnv):
+        def step(self, actions):
+            self.t += 1
+            live = self.agents[:]
+            term = {a: (a == "a0" and self.t == 1) for a in live}
+            trunc = {a: (a in live and self.t >= self.max_cycles) for a in self.possible_agents}
+            obs, rew = self._obs(live), {a: 1.0 for a in live}
+            self.agents = [a for a in live if not (term[a] or trunc[a])]
+            return obs, rew, term, trunc, {a: {} for a in live}
+    cases = 0
+    for cls in (OrderSwap, LiveTermAllTrunc):
+        globals()[cls.__name__] = cls
+        cls.__qualname__ = cls.__name__
+        ref = PettingZooAutoResetParallelWrapper(cls())
+        ref.reset()
+        vec = AsyncPettingZooVecEnv([cls, cls])
+        try:
+            vec.reset()
+            for s in range(5):
+                cases += 1
+                obs, rew, term, trunc, info = vec.step({"a0": np.array([0, 1]), "a1": np.array([1, 0])})
+                r_obs = ref.step({"a0": 0, "a1": 1})[0]
+                for i in range(2):
+                    for a in r_obs:
+                        if not np.array_equal(obs[a][i], r_obs[a]):
+                            return {"status": "fail", "cases": cases, "witness_key": "done-key-order",
+                                    "detail": f"{cls.__name__}: step {s}, env {i}, {a}: observation (episode, t) = {np.asarray(obs[a][i]).tolist()} but the environment "
+                                              f"stepped alone under the auto-reset wrapper gives {np.asarray(r_obs[a]).tolist()} (termination and truncation flags were paired by position)",
+                                    "input": {"env": cls.__name__, "step": s}}
+        finally:
+            vec.close(terminate=True)
+    return {"status": "pass", "cases": cases}
+
+
+def dtypes(payload):
+    """Every observation dtype a space can declare is vectorised with the declared dtype and the values of the environment stepped alone."""
+    from gymnasium import spaces
+    from pettingzoo import ParallelEnv
+    from agilerl.vector.pz_async_vec_env import AsyncPettingZooVecEnv
+    cases = 0
+    for dt in (np.bool_, np.int8, np.uint8, np.int16, np.int32, np.int64, np.uint64, np.float32, np.float64):
+        lo, hi = (0, 1) if dt is np.bool_ else (0, 100)
+
+        class DtEnv(ParallelEnv):
+            metadata = {"name": "dtype_v0", "render_modes": []}
+            render_mode = None
+            DT, LO, HI = dt, lo, hi
+
+            def __init__(self):
+                self.possible_agents = ["a0", "a1"]
+                self.agents = self.possible_agents[:]
+                self.t = 0
+
+            def observation_space(self, agent):
+                box = spaces.Box(self.LO, self.HI, (4,), self.DT)
+                return box if agent == "a0" else spaces.Dict({"m": box, "v": spaces.Box(-1, 1, (2,), np.float32)})
+
+            def action_space(self, agent):
+                return spaces.Discrete(2)
+
+            def _o(self, a):
+                m = np.array([(self.t + k) % 2 if self.DT is np.bool_ else (self.t * 7 + k) % 100 for k in range(4)]).astype(self.DT)
+                return m if a == "a0" else {"m": m, "v": np.array([0.5, -0.5], np.float32)}
+
+            def reset(self, seed=None, options=None):
+                self.t = 0
+                self.agents = self.possible_agents[:]
+                return {a: self._o(a) for a in self.agents}, {a: {} for a in self.agents}
+
+            def step(self, actions):
+                self.t += 1
+                z = {a: False for a in self.agents}
+                return {a: self._o(a) for a in self.agents}, {a: 0.0 for a in self.agents}, z, dict(z), {a: {} for a in self.agents}
+
+            def close(self):
+                pass
+        DtEnv.__qualname__ = DtEnv.__name__ = f"DtEnv_{np.dtype(dt).name}"
+        globals()[DtEnv.__name__] = DtEnv
+        cases += 1
+        try:
+            vec = AsyncPettingZooVecEnv([DtEnv, DtEnv])
+        except TypeError as e:
+            return {"status": "fail", "cases": cases, "witness_key": "obs-dtype-unsupported",
+                    "detail": f"observation dtype {np.dtype(dt).name}: constructing the vector env raised TypeError: {e}", "input": {"dtype": np.dtype(dt).name}}
+        try:
+            vec.reset()
+            obs = vec.step({"a0": np.array([0, 1]), "a1": np.array([1, 0])})[0]
+            ref = DtEnv()
+            ref.reset()
+            r = ref.step({"a0": 0, "a1": 1})[0]
+            for i in range(2):
+                got, want = np.asarray(obs["a0"][i]), r["a0"]
+                gotm, wantm = np.asarray(obs["a1"]["m"][i]), r["a1"]["m"]
+                if got.dtype != want.dtype or not np.array_equal(got, want) or gotm.dtype != wantm.dtype or not np.array_equal(gotm, wantm):
+                    return {"status": "fail", "cases": cases, "witness_key": "obs-dtype-unsupported",
+                            "detail": f"observation dtype {np.dtype(dt).name}, env {i}: got {got.dtype} {got.tolist()}, stepped alone {want.dtype} {want.tolist()}",
+                            "input": {"dtype": np.dtype(dt).name}}
+        finally:
+            vec.close(terminate=True)
+    return {"status": "pass", "cases": cases}
+
+
+def declared(payload):
+    """Returned observation batches lie in the vector env's declared (batched) observation space."""
+    from gymnasium import spaces
+    from pettingzoo import ParallelEnv
+    from agilerl.vector.pz_async_vec_env import AsyncPettingZooVecEnv
+    SP = {"plain": spaces.Discrete(5), "in_dict": spaces.Dict({"d": spaces.Discrete(5), "v": spaces.Box(-1, 1, (2,), np.float32)}),
+          "in_tuple": spaces.Tuple((spaces.Discrete(5), spaces.Box(-1, 1, (2,), np.float32))), "vec": spaces.Box(-1, 1, (3,), np.float32),
+          "img": spaces.Box(0, 255, (2, 2, 3), np.uint8), "md": spaces.MultiDiscrete([3, 4]), "mb": spaces.MultiBinary(3)}
+
+    class DeclEnv(ParallelEnv):
+        metadata = {"name": "declared_v0", "render_modes": []}
+        render_mode = None
+
+        def __init__(self):
+            self.possible_agents = list(SP)
+            self.agents = self.possible_agents[:]
+
+        def observation_space(self, agent):
+            return SP[agent]
+
+        def action_space(self, agent):
+            return spaces.Discrete(2)
+
+        def _obs(self):
+            v = np.array([0.5, -0.5], np.float32)
+            return {"plain": 3, "in_dict": {"d": 3, "v": v}, "in_tuple": (3, v), "vec": np.array([0.1, 0.2, 0.3], np.float32),
+                    "img": np.full((2, 2, 3), 7, np.uint8), "md": np.array([2, 3]), "mb": np.array([1, 0, 1], np.int8)}
+
+        def reset(self, seed=None, options=None):
+            self.agents = self.possible_agents[:]
+            return self._obs(), {a: {} for a in self.agents}
+
+        def step(self, actions):
+            f = {a: False for a in self.agents}
+            return self._obs(), {a: 0.0 for a in self.agents}, dict(f), dict(f), {a: {} for a in self.agents}
+
+        def close(self):
+            pass
+    DeclEnv.__qualname__ = "DeclEnv"
+    globals()["DeclEnv"] = DeclEnv
+    vec = AsyncPettingZooVecEnv([DeclEnv for _ in range(3)])
+    try:
+        obs, _ = vec.reset()
+        got = {"plain": obs["plain"], "in_dict.d": obs["in_dict"]["d"], "in_dict.v": obs["in_dict"]["v"], "in_tuple.0": obs["in_tuple"][0], "in_tuple.1": obs["in_tuple"][1],
+               "vec": obs["vec"], "img": obs["img"], "md": obs["md"], "mb": obs["mb"]}
+        decl = {"plain": vec.observation_space("plain"), "in_dict.d": vec.observation_space("in_dict")["d"], "in_dict.v": vec.observation_space("in_dict")["v"],
+                "in_tuple.0": vec.observation_space("in_tuple")[0], "in_tuple.1": vec.observation_space("in_tuple")[1], "vec": vec.observation_space("vec"),
+                "img": vec.observation_space("img"), "md": vec.observation_space("md"), "mb": vec.observation_space("mb")}
+    finally:
+        vec.close(terminate=True)
+    bad = [k for k in got if np.asarray(got[k]).shape != decl[k].shape]
+    disc = [k for k in bad if k in ("plain", "in_dict.d", "in_tuple.0")]
+    other = [k for k in bad if k not in disc]
+    if other:
+        k = other[0]
+        return {"status": "fail", "cases": len(got), "detail": f"{k}: returned shape {np.asarray(got[k]).shape}, declared {decl[k]} of shape {decl[k].shape}", "input": {"member": k}}
+    if disc:
+        return {"status": "fail", "cases": len(got), "witness_key": "discrete-obs-declared-shape",
+                "detail": "Discrete observations: " + "; ".join(f"{k} returned {np.asarray(got[k]).shape}, declared {decl[k].shape}" for k in disc), "input": {"members": disc}}
+    return {"status": "pass", "cases": len(got)}
